@@ -51,10 +51,10 @@ def affected_pinned(files):
     return mods
 
 
-def verify(prop, src, name, log):
+def verify(prop, src, name, log, slot=0):
     with open(os.path.join(src, "meta.json")) as fh:
         meta = json.load(fh)
-    wt = os.path.join(ROOT, "%s-%s" % (prop, name))
+    wt = os.path.join(ROOT, "slot%d" % slot)  # fixed paths keep the Go build cache reusable
     if os.path.isdir(wt):
         sh(["git", "-C", REPO, "worktree", "remove", "--force", wt])
     rc, out = sh(["git", "-C", REPO, "worktree", "add", "--detach", wt, "HEAD"])
@@ -74,12 +74,13 @@ def verify(prop, src, name, log):
         log("  %s/%s demo on unchanged tree: exit %s" % (prop, name, rc))
         if rc != 0:
             return {"ok": False, "why": "demonstration does not pass on the unchanged tree", "out": out[-1500:], "ran": ran}
-        # 2. apply + build
+        # 2. apply + build (the demonstration is taken away again so that it is not part of the pinned-suite run)
+        os.remove(os.path.join(wt, demo_path))
         rc, out = sh(["git", "apply", "--whitespace=nowarn", os.path.join(src, "patch.diff")], cwd=wt)
         if rc != 0:
             return {"ok": False, "why": "patch does not apply", "out": out[-800:], "ran": ran}
         rc, out = sh(["git", "diff", "--name-only"], cwd=wt)
-        files = [f for f in out.split() if f != "client/docs/statik/statik.go"]
+        files = [f for f in out.split() if f != "client/docs/statik/statik.go" and f != demo_path]
         if any(f.endswith("_test.go") for f in files):
             return {"ok": False, "why": "patch edits a test file", "ran": ran}
         builds = []
@@ -101,6 +102,7 @@ def verify(prop, src, name, log):
             if rc != 0:
                 return {"ok": False, "why": "pinned suite fails in " + m, "out": out[-2500:], "ran": ran}
         # 4. demo with the patch
+        shutil.copy(os.path.join(src, "demo_test.go"), os.path.join(wt, demo_path))
         rc, out = sh(demo_cmd, cwd=wt, shell=True)
         ran.append({"cmd": demo_cmd, "tree": "patched", "exit": rc})
         log("  %s/%s demo on patched tree: exit %s" % (prop, name, rc))
@@ -129,14 +131,14 @@ def main():
         with lock:
             print(s, flush=True)
 
-    def worker():
+    def worker(slot):
         while True:
             try:
                 prop, src, name = q.get_nowait()
             except Empty:
                 return
             try:
-                r = verify(prop, src, name, log)
+                r = verify(prop, src, name, log, slot)
             except Exception as e:  # noqa
                 r = {"ok": False, "why": repr(e)}
             if r["ok"]:
@@ -162,7 +164,7 @@ def main():
                 log("DROP %s/%s  %s\n%s" % (prop, name, r["why"], r.get("out", "")))
 
     os.makedirs(ROOT, exist_ok=True)
-    ths = [threading.Thread(target=worker) for _ in range(jobs)]
+    ths = [threading.Thread(target=worker, args=(i,)) for i in range(jobs)]
     for t in ths:
         t.start()
     for t in ths:
